@@ -74,6 +74,41 @@ def brief(trace, upto=None):
                                          (" reply=" + json.dumps(s["reply"])) if "reply" in s else ""))
     return lines
 
+def runnable(c):
+    """The part of a generated case that is needed to run it again (JSON-serialisable)."""
+    return {k: v for k, v in c.items() if not k.startswith("_") or k in ("_pool", "_script", "_probe")}
+
+def replay_case(prop, path):
+    """./check <prop> --replay <file>: runs the recorded case again on the CURRENT /repo tree, replays the resulting trace
+    through the model and the monitor, and says whether the violation is still there."""
+    d = json.load(open(path))
+    c = d.get("case") or {}
+    while isinstance(c, dict) and "_script" not in c and isinstance(c.get("case"), dict):
+        c = c["case"]
+    if not (isinstance(c, dict) and "_script" in c):
+        return None
+    profile = d.get("profile") or (d.get("case") or {}).get("profile") or "dev"
+    ok, log, binary = harness_build(profile)
+    if not ok:
+        print("VIOLATION property=%s replay=%s no-failing-input-found" % (prop, path)); print("  harness does not build: " + log[-300:]); return 1
+    keep, verdicts, skewed = run_traces(binary, [c], prop + "replay")
+    if not keep:
+        print("REPLAY property=%s: the trace straddled a wall-clock second and was discarded; run again" % prop); return 3
+    (c, t), v = keep[0], verdicts[0]
+    bad, k_out, k_reply, mask, first, kf, npay, nsteps = v
+    bit = PROP_BIT[prop]
+    for l in brief(t, (first or k_out or nsteps) + 1)[-8:]:
+        print("  " + l[:400])
+    if bad or k_reply:
+        print("INTERNAL: the replayed trace is not a contract-respecting history (bad=%s, reply mismatch at %s)" % (bad, k_reply)); return 3
+    if mask & (1 << bit):
+        if kf & 1 and any(k.get("property") == prop and k.get("status") == "known" and k.get("class") == "kf_read_error" for k in load_known()):
+            print("KNOWN-FINDING: property=%s replay reproduces the recorded class kf_read_error (first violation at step %d)" % (prop, first)); return 0
+        print("VIOLATION property=%s replay=%s" % (prop, path)); print("  property monitor fails at step %d of the re-run history" % first); return 1
+    if k_out:
+        print("VIOLATION property=%s replay=%s no-failing-input-found" % (prop, path)); print("  implementation and model differ at step %d of the re-run history" % k_out); return 1
+    print("OK property=%s replay: the recorded case runs clean on the current tree (%d steps, %d pay calls)" % (prop, nsteps, npay)); return 0
+
 def corpus_cases(prop):
     """Committed witnesses (corpus/<prop>/*.json with a runnable "case"): replayed first in every tier."""
     d = os.path.join(VERIF, "corpus", prop)
@@ -129,14 +164,14 @@ def run_property(prop, tier, seed, gen, rule, assumptions, pins_targets=None, pr
                 o.kf_hits["kf_read_error"] = o.kf_hits.get("kf_read_error", 0) + 1
             if mask & (1 << bit):
                 payload = {"profile": profile, "family": c["family"], "first_violation_step": first, "violated_mask": mask,
-                           "history": brief(t, first + 2), "case": {k: v for k, v in c.items() if not k.startswith("_")}, "trace": t}
+                           "history": brief(t, first + 2), "case": runnable(c), "trace": t}
                 if kf & 1:
                     o.kf_hits["kf_read_error"] = o.kf_hits.get("kf_read_error", 0) + 1
                 else:
                     o.monitor_failures.append((desc_head + ": property monitor fails at step %d: %s" % (first, " | ".join(brief(t, first)[-3:])[:700]), payload))
             if k_out:
                 o.corr_failures.append((desc_head + ": implementation and model differ at step %d: %s" % (k_out, " | ".join(brief(t, k_out)[-2:])[:700]),
-                                        {"profile": profile, "family": c["family"], "step": k_out, "history": brief(t, k_out + 1), "trace": t}))
+                                        {"profile": profile, "family": c["family"], "step": k_out, "history": brief(t, k_out + 1), "case": runnable(c), "trace": t}))
         if keep:
             c, t = keep[len(keep) // 2]
             o.samples.append({"family": c["family"], "profile": profile, "history": brief(t)[:40]})
@@ -150,7 +185,7 @@ def run_property(prop, tier, seed, gen, rule, assumptions, pins_targets=None, pr
         for (c, t), v in zip(keep, verdicts):
             if v[3] & (1 << bit) and not v[0] and not (v[5] & 1):
                 return ("family %s: property monitor fails at step %d: %s" % (c["family"], v[4], " | ".join(brief(t, v[4])[-3:])[:700]),
-                        {"family": c["family"], "first_violation_step": v[4], "history": brief(t, v[4] + 2), "trace": t})
+                        {"family": c["family"], "first_violation_step": v[4], "history": brief(t, v[4] + 2), "case": runnable(c), "trace": t})
         return None
     return finish(o, search)
 
